@@ -86,6 +86,9 @@ def run(repo, res, tier):
     sk_bash.matchfn_rule(repo, res, tier)
     sk_bash.fresh_rule(repo, res, tier)
     sk_bash.subacc_rule(repo, res, tier)
+    sk_bash.scope_rule(repo, res, tier)
+    from vlib import rules_pipeline as RPL
+    RPL.from_grammar_order(repo, res)  # levels are assigned after expansion, on the expression that is compiled
     c04.shared_cmd_ids(repo, res)
     res.floor("PIPE", res.count("PIPE"), 9)
     res.floor("SK-WALK", res.count("SK-WALK"), 30)
